@@ -82,6 +82,14 @@ M2=[ # second batch (with an optional anchor: the edit is made at the first occu
  ("C20","fileoperations/wallet.go","	raw, err := os.ReadFile(h.cfg.WalletPath)","	raw, err := os.ReadFile(h.cfg.WalletPemPath)","ReadWallet reads another file"),
  ("C20","fileoperations/wallet.go","	closed, err := h.s.Encrypt(passwd, raw)","	closed, err := h.s.Encrypt(raw, passwd)","SaveWallet seals the key with the wallet as key"),
  ("C20","fileoperations/wallet.go","	opened, err := h.s.Decrypt(passwd, raw)\n	if err != nil {","	opened, err := h.s.Decrypt(passwd, raw)\n	if err != nil && len(opened) == 0 {","ReadWallet goes on after a failed decryption when some bytes came back"),
+ ("C04","wallet/verifier.go","	targetChecksum := checksum(append([]byte{version}, pubKey...))","	targetChecksum := checksum(append([]byte{version}, pubKey[1:]...))","address checksum no longer covers the first key byte"),
+ ("C04","wallet/verifier.go","	if !bytes.Equal(hash[:], digest[:]) {\n		return errors.New(\"hash is corrupted\")\n	}\n\n	pubKey, err := h.AddressToPubKey(address)","	pubKey, err := h.AddressToPubKey(address)","verifier no longer compares the hash with the digest of the message"),
+ ("C04","wallet/verifier.go","	if !ed25519.Verify(pubKey, digest[:], signature) {","	if !ed25519.Verify(pubKey, hash[:], signature) && !ed25519.Verify(pubKey, message, signature) {","signature accepted over the raw message as well"),
+ ("C04","wallet/verifier.go","	if !bytes.Equal(actualChecksum, targetChecksum) {\n		return []byte{}, errors.New(\"address checksum is not equal\")","	if !bytes.Equal(actualChecksum, targetChecksum) && len(address) < 10 {\n		return []byte{}, errors.New(\"address checksum is not equal\")","address checksum only enforced for short addresses"),
+ ("C11","cache/flashback.go","	defer f.mem.Set(string(h), []byte{})\n","","the recent-hash memory never records what it was asked about"),
+ ("C11","cache/flashback.go","	if err == nil {\n		return true, nil\n	}","	if err == nil {\n		return false, nil\n	}","a remembered hash is reported as new","func (f *Flashback) HasHash("),
+ ("C11","gossip/gossip.go","createGossiperMessageToSign(g.signer.Address(), vrx.Hash)","createGossiperMessageToSign(g.signer.Address(), vrx.Transaction.Hash)","origin signs its gossiper entry over the transaction hash"),
+ ("C12","gossip/gossip.go","			set := map[string]*protobufcompiled.Gossiper{g.signer.Address(): gossiper}\n			g.gossipVertex(ctx, vg, set)","			set := map[string]*protobufcompiled.Gossiper{}\n			g.gossipVertex(ctx, vg, set)","origin forwards with an empty verified set"),
 ]
 N=[ # neutral edits: every check must stay at exit 0
  ("accountant/accountant.go","	validatedLeafs := make([]*Vertex, 0, 2)\n","	validatedLeafs := make([]*Vertex, 0, 2)\n	ab.log.Debug(\"validating the parents of an incoming leaf\")\n","add a log line"),
